@@ -4732,7 +4732,7 @@ class NotImplies2Macro(Macro):
         if goal != Not(prop.arg.arg):
             raise VeriTException("not_implies2", "unexpected argument")
         
-        return Thm(goal)
+        return Thm(goal, prevs[0].hyps)
     def get_proof_term(self, args, prevs):
         goal = args[0]
         prop = prevs[0].prop
